@@ -193,6 +193,8 @@ def gen_cfg(s, mode, real_frac=0.0):
         cfg['this_job_id'] = s.randrange(cfg['split_jobs'])
     cfg['buggify'] = s.choice([0.0, 0.05, 0.2, 0.5, 1.0])
     cfg['dur'] = s.choice([[1e-3, 1e2], [1e-3, 1e-3], [1.0, 2.0], [1e-2, 1e1]])
+    cfg['policy'] = s.choice(['des', 'des', 'des', 'pct'])
+    cfg['pct_depth'] = s.choice([1, 2, 3])
     prof = s.choice(['uniform', 'uniform', 'stalled', 'fast_one', 'slow_producer', 'mixed'])
     cfg['profile'] = prof
     ncp = cfg['cpus'] or cfg['cpu_count']
@@ -309,7 +311,8 @@ def reference(cfg):
 def simulate(cfg, stream=None, decisions=None):
     """One simulated execution.  Returns (outcome, cache_or_None, sim, hooks)."""
     ch = Chooser(stream=stream, replay=decisions)
-    sim = Sim(ch, buggify=cfg['buggify'], step_cap=step_cap(cfg))
+    sim = Sim(ch, buggify=cfg['buggify'], step_cap=step_cap(cfg), policy=cfg.get('policy', 'des'), pct_depth=cfg.get('pct_depth', 2),
+              pct_horizon=max(20, 6 * n_jobs(cfg)))
     hooks = Hooks()
     hooks.sim, hooks.ch = sim, ch
     hooks.jobmap = jobmap_of(cfg)
